@@ -7,7 +7,7 @@
      dec = A 0 (identity) | A 1 (ascii: fails on a byte >= 128) | L [L [B payload; L [A 0; B pkt]] | L [B payload; L [A 1]] ...]
    output = L rounds, round = L [A consumed; L events; held]   (held = get_buffer() / get_value())
      event = L [A 0; B pkt] | L [A 1; A errcode; B remaining] | L [A 2] (crash: RuntimeError)                       *)
-From EN Require Import Lib.Bytes Lib.Sx Frame.Framer Frame.ReadUntil Frame.BufReadUntil Stream.Consumer.
+From EN Require Import Lib.Bytes Lib.Sx Frame.Framer Frame.ReadUntil Frame.BufReadUntil Frame.Serialize Stream.Consumer.
 
 Definition err_code (e : err) : Z :=
   match e with ELimit => 0 | EDecode => 1 | EConvert => 2 | EMissing => 3 | EExtra => 4 end%Z.
@@ -153,8 +153,23 @@ End RunBuf.
 
 Definition total_len (chunks : list bytes) : nat := fold_right (fun c n => length c + n) 0 chunks.
 
+(* kind 10: the sending side.  input = L [A 10; A variant; cfg; B data]
+     variant 0 StringLineSerializer cfg = L [B sep] | 1 AutoSeparated cfg = L [B sep; A check] | 2 FixedSize cfg = L [A size]
+   output = L [A 0; L chunks] | L [A 1] (ValueError) *)
+Definition ser_out (o : option (list bytes)) : sx :=
+  match o with Some chunks => L [A 0; L (map B chunks)] | None => L [A 1] end%Z.
+
+Definition run_ser (variant : Z) (cfg : sx) (data : bytes) : sx :=
+  match variant, cfg with
+  | 0%Z, L [B sep] => ser_out (Some (line_iser sep data))
+  | 1%Z, L [B sep; A check] => ser_out (autosep_iser (Z.eqb check 1) sep data)
+  | 2%Z, L [A size] => ser_out (fixed_iser (Z.to_nat size) data)
+  | _, _ => bad_input
+  end.
+
 Definition run (i : sx) : sx :=
   match i with
+  | L (A 10%Z :: A variant :: cfg :: B data :: _) => run_ser variant cfg data
   | L (A kind :: cfg :: d :: chs :: _) =>
       do dec <- mk_dec d;
       do chunks <- as_list_of as_bytes chs;
